@@ -146,14 +146,160 @@ struct Built {
     id: String,
     messages: Vec<String>,
     op_errors: u64,
+    writer_checks: u64,
+    writer_violations: Vec<(usize, Target, String)>, // (op index, file, what)
 }
+
+// ---------------------------------------------------------------- write conformance of the cache writers
+// After every (non-fault) operation each append-only cache file must have moved by the reference write semantics of
+// today's writers, applied to whatever the file held before (faulted or not):
+//   unchanged | old bytes + well-formed records of truth frames | the exact projection of the truth stream (rebuild
+//   from replay) | the projection of the current full sidecar (.mr/.comp: ensure_* from the full sidecar) | the index of
+//   the current .comp sidecar (.comp.idx) | removed.
+// Everything else (bytes dropped or rewritten in place, foreign records) is a writer defect — this is what keeps the
+// state-based known-finding classes honest: a cache state may only be blamed on an open finding if it was reached
+// through the reference writers.
+fn truth_lines(root: &Path, id: &str) -> Vec<(Event, Vec<u8>)> {
+    let raw = std::fs::read(root.join("data").join("events.jsonl")).unwrap_or_default();
+    let mut out = vec![];
+    for line in raw.split_inclusive(|b| *b == b'\n') {
+        let Ok(ev) = serde_json::from_slice::<Event>(line) else { continue };
+        if ev.stream_kind() == StreamKind::Continuity && ev.stream_id() == id {
+            out.push((ev, line.to_vec()));
+        }
+    }
+    out
+}
+fn kind_in(t: Target, e: &Event) -> bool {
+    match t {
+        Target::Full => true,
+        Target::Mr => matches!(e.kind, EventKind::ContinuityMessageAppended { .. } | EventKind::ContinuityRunEnded { .. }),
+        Target::Comp | Target::CompIdx => matches!(e.kind, EventKind::ContinuityCompactionCheckpointCreated { .. }),
+        Target::Ord => matches!(e.kind, EventKind::ContinuityMessageAppended { .. }),
+        _ => false,
+    }
+}
+fn proj_bytes(lines: &[(Event, Vec<u8>)], t: Target) -> Vec<u8> {
+    lines.iter().filter(|(e, _)| kind_in(t, e)).flat_map(|(_, l)| l.clone()).collect()
+}
+/// lines of a (possibly damaged) sidecar that parse as frames of this stream, with their bytes
+fn parsed_lines(raw: &[u8], id: &str) -> Option<Vec<(Event, Vec<u8>)>> {
+    let mut out = vec![];
+    for line in raw.split_inclusive(|b| *b == b'\n') {
+        if line.iter().all(|b| b.is_ascii_whitespace()) {
+            continue;
+        }
+        let ev = serde_json::from_slice::<Event>(line).ok()?;
+        if ev.stream_kind() != StreamKind::Continuity || ev.stream_id() != id {
+            return None;
+        }
+        let mut l = line.to_vec();
+        if !l.ends_with(b"\n") {
+            l.push(b'\n');
+        }
+        out.push((ev, l));
+    }
+    Some(out)
+}
+fn ord_records(raw: &[u8]) -> Option<Vec<(u64, [u8; 16])>> {
+    if raw.len() < 32 || &raw[0..8] != b"RIPMORD1" || (raw.len() - 32) % 24 != 0 {
+        return None;
+    }
+    Some(raw[32..].chunks(24).map(|c| (u64::from_le_bytes(c[0..8].try_into().unwrap()), c[8..24].try_into().unwrap())).collect())
+}
+fn idx_entries(raw: &[u8]) -> Option<Vec<(u64, String)>> {
+    let mut out = vec![];
+    for line in raw.split_inclusive(|b| *b == b'\n') {
+        if line.iter().all(|b| b.is_ascii_whitespace()) {
+            continue;
+        }
+        if !line.ends_with(b"\n") {
+            return None;
+        }
+        let v = serde_json::from_slice::<Value>(line).ok()?;
+        out.push((v.get("seq")?.as_u64()?, v.get("checkpoint_id")?.as_str()?.to_string()));
+    }
+    Some(out)
+}
+fn ckpt_entries(lines: &[(Event, Vec<u8>)]) -> Vec<(u64, String)> {
+    lines.iter().filter_map(|(e, _)| match &e.kind { EventKind::ContinuityCompactionCheckpointCreated { checkpoint_id, .. } => Some((e.seq, checkpoint_id.clone())), _ => None }).collect()
+}
+/// None = conforming; Some(what) otherwise
+fn writer_conforms(t: Target, id: &str, before: &Option<Vec<u8>>, after: &Option<Vec<u8>>, truth: &[(Event, Vec<u8>)], full_after: &Option<Vec<u8>>, comp_after: &Option<Vec<u8>>) -> Option<String> {
+    let Some(after) = after else { return None }; // removed / never created
+    let empty = vec![];
+    let before_b = before.as_ref().unwrap_or(&empty);
+    if after == before_b {
+        return None;
+    }
+    // (a) old bytes kept, well-formed records of truth frames added
+    if after.starts_with(before_b) {
+        let suffix = &after[before_b.len()..];
+        let ok = match t {
+            Target::Full | Target::Mr | Target::Comp => {
+                let mut rest = suffix;
+                let mut good = true;
+                while !rest.is_empty() && good {
+                    match truth.iter().find(|(e, l)| kind_in(t, e) && rest.starts_with(l)) {
+                        Some((_, l)) => rest = &rest[l.len()..],
+                        None => good = false,
+                    }
+                }
+                good
+            }
+            Target::Ord => {
+                let body = if before_b.is_empty() && suffix.len() >= 32 && &suffix[0..8] == b"RIPMORD1" { &suffix[32..] } else { suffix };
+                body.len() % 24 == 0
+                    && body.chunks(24).all(|c| {
+                        let seq = u64::from_le_bytes(c[0..8].try_into().unwrap());
+                        truth.iter().any(|(e, _)| kind_in(t, e) && e.seq == seq && uuid::Uuid::parse_str(&e.id).map(|u| u.as_bytes()[..] == c[8..24]).unwrap_or(false))
+                    })
+            }
+            Target::CompIdx => idx_entries(suffix).map(|es| { let want = ckpt_entries(truth); es.iter().all(|x| want.contains(x)) }).unwrap_or(false),
+            _ => true,
+        };
+        if ok {
+            return None;
+        }
+    }
+    // (b) rebuilt from the truth stream
+    let exact = match t {
+        Target::Full | Target::Mr | Target::Comp => *after == proj_bytes(truth, t),
+        Target::Ord => ord_records(after).map(|rs| rs.iter().map(|r| r.0).collect::<Vec<_>>() == truth.iter().filter(|(e, _)| kind_in(t, e)).map(|(e, _)| e.seq).collect::<Vec<_>>()).unwrap_or(false),
+        Target::CompIdx => idx_entries(after).map(|es| es == ckpt_entries(truth)).unwrap_or(false),
+        _ => true,
+    };
+    if exact {
+        return None;
+    }
+    // (c) derived sidecar built from the full sidecar as found / index built from the .comp sidecar as found
+    match t {
+        Target::Mr | Target::Comp => {
+            if let Some(fl) = full_after.as_ref().and_then(|f| parsed_lines(f, id)) {
+                if *after == proj_bytes(&fl, t) {
+                    return None;
+                }
+            }
+        }
+        Target::CompIdx => {
+            if let (Some(es), Some(cl)) = (idx_entries(after), comp_after.as_ref().and_then(|c| parsed_lines(c, id))) {
+                if es == ckpt_entries(&cl) {
+                    return None;
+                }
+            }
+        }
+        _ => {}
+    }
+    Some(format!("{:?}: {} bytes before the operation, {} after; the new content is neither the old bytes plus well-formed records of truth frames, nor a rebuild (from the truth stream / from the sidecar it is derived from)", t, before_b.len(), after.len()))
+}
+const CONFORM_TARGETS: [Target; 5] = [Target::Full, Target::Mr, Target::Comp, Target::CompIdx, Target::Ord];
 
 fn file_versions(root: &Path, id: &str) -> BTreeMap<Target, Option<Vec<u8>>> {
     let mut m = BTreeMap::new();
     for t in TARGETS {
         let p = target_path(root, id, t);
         let v = match std::fs::metadata(&p) {
-            Ok(md) if md.len() <= 256 * 1024 => std::fs::read(&p).ok(),
+            Ok(md) if md.len() <= 4 * 1024 * 1024 => std::fs::read(&p).ok(),
             Ok(_) => None, // too big to version: Rollback of this file becomes a no-op
             Err(_) => None,
         };
@@ -232,7 +378,11 @@ fn build(case: &Case) -> Built {
     let mut errs = 0u64;
     let mut nmsg = 0u64;
     let versioned = !case.long;
-    for op in &case.ops {
+    let mut writer_checks = 0u64;
+    let mut writer_violations: Vec<(usize, Target, String)> = vec![];
+    let mut last_state: Option<(BTreeMap<Target, Option<Vec<u8>>>, BTreeMap<Target, bool>)> =
+        if versioned { Some((file_versions(&root, &id), TARGETS.iter().map(|t| (*t, target_path(&root, &id, *t).exists())).collect())) } else { None };
+    for (opi, op) in case.ops.iter().enumerate() {
         let st = &o.store;
         let r: Result<(), String> = match op {
             Op::Msg { size } => {
@@ -299,12 +449,32 @@ fn build(case: &Case) -> Built {
             errs += 1;
         }
         if versioned {
-            versions.push(file_versions(&root, &id));
-            present.push(TARGETS.iter().map(|t| (*t, target_path(&root, &id, *t).exists())).collect());
+            let now = file_versions(&root, &id);
+            let now_present: BTreeMap<Target, bool> = TARGETS.iter().map(|t| (*t, target_path(&root, &id, *t).exists())).collect();
+            if !matches!(op, Op::Fault { .. }) {
+                if let Some((was, was_present)) = &last_state {
+                    let truth = truth_lines(&root, &id);
+                    let truth_valid = truth.iter().enumerate().all(|(i, (e, _))| e.seq == i as u64);
+                    for t in CONFORM_TARGETS {
+                        // a file too big to snapshot (present but not read) is skipped
+                        let readable = |m: &BTreeMap<Target, Option<Vec<u8>>>, pr: &BTreeMap<Target, bool>| !pr[&t] || m[&t].is_some();
+                        if !truth_valid || !readable(was, was_present) || !readable(&now, &now_present) || !readable(&now, &now_present) || (now_present[&Target::Full] && now[&Target::Full].is_none()) || (now_present[&Target::Comp] && now[&Target::Comp].is_none()) {
+                            continue;
+                        }
+                        writer_checks += 1;
+                        if let Some(what) = writer_conforms(t, &id, &was[&t], &now[&t], &truth, &now[&Target::Full], &now[&Target::Comp]) {
+                            writer_violations.push((opi, t, what));
+                        }
+                    }
+                }
+            }
+            last_state = Some((now.clone(), now_present.clone()));
+            versions.push(now);
+            present.push(now_present);
         }
     }
     drop(o);
-    Built { scratch, id, messages, op_errors: errs }
+    Built { scratch, id, messages, op_errors: errs, writer_checks, writer_violations }
 }
 
 // ---------------------------------------------------------------- queries
@@ -594,7 +764,29 @@ fn coherence(root: &Path, id: &str, a: &Abs) -> Coherence {
     Coherence { truth_valid: a.truth.iter().enumerate().all(|(i, e)| e.seq == i as u64), full, full_stale_prefix: pre, full_good_lines_not_contiguous: gap, mr: classify_derived_jsonl(root, id, a, Target::Mr), comp: classify_derived_jsonl(root, id, a, Target::Comp), compidx: classify_compidx(root, id, a), ord: classify_ord(root, id, a), ord_tail_coherent: ord_tail_coherent(root, id, a) }
 }
 /// executable class of a fast/truth disagreement
-fn classify_violation(c: &Coherence, fast: &Ans, truth: &Ans, q: &Q) -> String {
+/// fault kinds applied to any of `targets` in the history ("Delete", "TruncLines", "TruncMidLine", "Garbage", "Rollback")
+fn faults_on(ops: &[Op], targets: &[Target]) -> Vec<&'static str> {
+    ops.iter()
+        .filter_map(|o| match o {
+            Op::Fault { target, kind } if targets.contains(target) => Some(match kind {
+                FaultKind::Delete => "Delete",
+                FaultKind::TruncLines(_) => "TruncLines",
+                FaultKind::TruncMidLine => "TruncMidLine",
+                FaultKind::Garbage => "Garbage",
+                FaultKind::Rollback(_) => "Rollback",
+            }),
+            _ => None,
+        })
+        .collect()
+}
+/// The open classes are keyed twice: by the file state the readers meet (computed from the files) AND by how such a
+/// state arises on today's code (the fault kinds in the history; the writers themselves are held to the reference
+/// write semantics by the write-conformance check).  A disagreement in a state that the listed faults cannot
+/// produce is reported under the generic class, i.e. as a new violation.
+fn classify_violation(c: &Coherence, fast: &Ans, truth: &Ans, q: &Q, ops: &[Op]) -> String {
+    let any = |ts: &[Target], kinds: &[&str]| faults_on(ops, ts).iter().any(|k| kinds.contains(k));
+    const LOSSY: [&str; 3] = ["Delete", "TruncLines", "Rollback"]; // faults that leave a well-formed file (or none, re-created by the next append)
+    const ANYK: [&str; 5] = ["Delete", "TruncLines", "TruncMidLine", "Garbage", "Rollback"];
     let qn = match q {
         Q::Replay => "replay",
         Q::CutPoints { .. } => "cut_points",
@@ -617,33 +809,37 @@ fn classify_violation(c: &Coherence, fast: &Ans, truth: &Ans, q: &Q) -> String {
         // stream itself no longer validates (C01/C05 own that defect; here it only explains the disagreement)
         return "truth_stream_seq_reissued_after_stale_sidecar".into();
     }
-    if c.full == FileState::WellFormedDiffers && c.full_stale_prefix {
+    if c.full == FileState::WellFormedDiffers && c.full_stale_prefix && any(&[Target::Full], &["TruncLines", "Rollback"]) {
         return "full_sidecar_wellformed_stale_prefix".into();
     }
     if let (Q::Compile { .. }, Ans::Ok(f), Ans::Ok(t)) = (q, fast, truth) {
         // C08's finding (builder compile): with the full sidecar unusable the compile input takes the head seq from
         // the last line of the messages+runs sidecar, so from_seq stops at the newest message / run-ended frame
-        if c.full != FileState::Exact && f["from_seq"].as_u64() < t["from_seq"].as_u64() && f["from_message_id"] == t["from_message_id"] {
+        if c.full != FileState::Exact && any(&[Target::Full], &ANYK) && f["from_seq"].as_u64() < t["from_seq"].as_u64() && f["from_message_id"] == t["from_message_id"] {
             return "compile_head_seq_taken_from_mr_sidecar".into();
         }
     }
-    if c.mr == FileState::WellFormedDiffers || c.comp == FileState::WellFormedDiffers {
+    if (c.mr == FileState::WellFormedDiffers && (any(&[Target::Mr], &LOSSY) || any(&[Target::Full], &ANYK)))
+        || (c.comp == FileState::WellFormedDiffers && (any(&[Target::Comp], &LOSSY) || any(&[Target::Full], &ANYK)))
+    {
         return "derived_sidecar_wellformed_not_projection".into();
     }
-    if c.mr == FileState::Empty || c.comp == FileState::Empty {
+    if (c.mr == FileState::Empty && any(&[Target::Mr], &["TruncLines"])) || (c.comp == FileState::Empty && any(&[Target::Comp], &["TruncLines"])) {
         return "derived_sidecar_zero_length_accepted".into();
     }
     // the ordinal index is cross-checked only through its last record; an index whose last record is NOT the last
     // message is detected by the readers, so a disagreement in that state would be a new defect, not this class
-    if c.compidx == FileState::WellFormedDiffers || (c.ord == FileState::WellFormedDiffers && c.ord_tail_coherent) {
+    if (c.compidx == FileState::WellFormedDiffers && (any(&[Target::CompIdx], &LOSSY) || any(&[Target::Comp, Target::Full], &ANYK)))
+        || (c.ord == FileState::WellFormedDiffers && c.ord_tail_coherent && (any(&[Target::Ord], &LOSSY) || any(&[Target::Mr, Target::Full], &ANYK)))
+    {
         return "derived_index_wellformed_not_projection".into();
     }
-    if c.full_good_lines_not_contiguous && matches!(q, Q::Compile { .. }) {
+    if c.full_good_lines_not_contiguous && any(&[Target::Full], &LOSSY) && matches!(q, Q::Compile { .. }) {
         // window_recent_messages_v1_from_message_id (seek/message-id index over the full sidecar) reads a window of a
         // full sidecar whose seqs are not contiguous without noticing (the tail loops and try_replay do notice)
         return "compile_window_read_accepts_noncontiguous_full_sidecar".into();
     }
-    if (c.comp == FileState::Absent || c.mr == FileState::Absent) && !matches!(c.full, FileState::Exact | FileState::Absent) && matches!(q, Q::CutPoints { .. } | Q::CompactionStatus { .. } | Q::Compile { .. }) {
+    if (c.comp == FileState::Absent || c.mr == FileState::Absent) && !matches!(c.full, FileState::Exact | FileState::Absent) && any(&[Target::Full], &ANYK) && matches!(q, Q::CutPoints { .. } | Q::CompactionStatus { .. } | Q::Compile { .. }) {
         // ensure_*_sidecar_best_effort_v1 builds a missing derived sidecar from whatever the full sidecar holds
         // (line headers only: no seq contiguity, no comparison with the log)
         return "derived_sidecar_rebuilt_from_unvalidated_full_sidecar".into();
@@ -997,6 +1193,8 @@ struct Outcome {
     coh: Coherence,
     messages: Vec<String>,
     op_errors: u64,
+    writer_checks: u64,
+    writer_violations: Vec<(usize, Target, String)>,
 }
 fn run_case(case: &Case) -> Outcome {
     let b = build(case);
@@ -1032,7 +1230,7 @@ fn run_case(case: &Case) -> Outcome {
         hung = fast == Ans::Hang || truth == Ans::Hang;
         results.push((q.clone(), fast, truth));
     }
-    Outcome { results, abs, full, coh, messages: b.messages.clone(), op_errors: b.op_errors }
+    Outcome { results, abs, full, coh, messages: b.messages.clone(), op_errors: b.op_errors, writer_checks: b.writer_checks, writer_violations: b.writer_violations.clone() }
 }
 
 fn case_json(c: &Case) -> Value {
@@ -1164,6 +1362,18 @@ fn main() {
         if res.samples.len() < 2 && nf > 0 && !case.long && case.ops.len() < 12 {
             res.samples.push(case_json(case));
         }
+        res.oracle_checks += out.writer_checks;
+        res.bump_by("writer_conformance_checks", out.writer_checks);
+        for (opi, t, what) in &out.writer_violations {
+            let class = format!("cache_writer_nonconforming:{:?}", t);
+            *seen_classes.entry(class.clone()).or_insert(0) += 1;
+            res.oracle_violations.push(OracleViolation {
+                case_id: -(ci as i64) - 1,
+                what: format!("operation #{opi} ({:?}) moved a cache file outside the reference write semantics: {what}", case.ops[*opi]),
+                class,
+                replay: json!({"case": case_json(&Case { ops: case.ops[..=*opi].to_vec(), queries: vec![], long: false }), "check": "write conformance after the last operation"}),
+            });
+        }
         let nmsgs = out.messages.len() as u64;
         let counts_intact = out.coh.mr == FileState::Exact && out.coh.ord == FileState::Exact;
         for (q, fast, truth) in &out.results {
@@ -1204,7 +1414,7 @@ fn main() {
             };
             if bad {
                 let which = if matches!(truth, Ans::Hang | Ans::Panic) && !matches!(fast, Ans::Hang | Ans::Panic) { truth } else { fast };
-                let class = classify_violation(&out.coh, which, truth, q);
+                let class = classify_violation(&out.coh, which, truth, q, &case.ops);
                 *seen_classes.entry(class.clone()).or_insert(0) += 1;
                 let what = format!("{:?}: caches as found => {}   caches removed => {}", q, short(&fast.json()), short(&truth.json()));
                 // every model case of this query is flagged (so a model disagreement there is explained);
@@ -1260,7 +1470,7 @@ fn shrink_case(case: &Case, q: &Q, class: &str) -> Value {
                 (Ans::Err(x), Ans::Err(y)) => x != y,
                 _ => true,
             };
-            bad && classify_violation(&out.coh, f, t, qq) == cls
+            bad && classify_violation(&out.coh, f, t, qq, ops) == cls
         })
     });
     case_json(&Case { ops, queries: vec![q.clone()], long: false })
